@@ -25,8 +25,10 @@ def nontrivial(block):
 CONFIG = {
     "runs": runs,
     "nontrivial": nontrivial,
-    "status": "full for the repaired code (HEAD, after F8), refuted for the code before it; two findings on HEAD. "
-              "C12_refines: for EVERY command list (clause-update with any t/add/rmv lists, undo-update, save-cnf) run from a CNF-loaded state, "
+    "status": "full for the repaired code (HEAD, after F8 and F9), refuted for the code before them; one finding on HEAD (K9). "
+              "C12_refines: for EVERY command list (clause-update with any t/add/rmv lists, undo-update, save-cnf) run from a CNF-loaded state "
+              "(good_input = clause lines without literal 0, satisfiable; the stored clause set MAY BE EMPTY - no clause line, tautologies only - "
+              "since repair F9: C12_load_has_cache, every loaded CNF has a clause cache initialised with the stored set), "
               "the model of ClauseCache (setup_for_edit with rollback, setup_for_undo, apply_edits_and_replace, update_cached_state+swap, "
               "undo_on_cached_state, the stream-level t/conflict/boundary checks) and the abstract clause-set machine (state = current set, n, "
               "previous (set, n); update = (set \\ rmv) ++ add, undo = swap) stay coupled, by induction over the history with the coupling invariant R "
@@ -41,13 +43,16 @@ CONFIG = {
               "C12_core_answers: under the compiler contract (Section hypothesis, checked per compilation by the run) the live model after any history "
               "has the models of the machine's CNF and count / sat / core (via the C02, C03, C05 theorems) answer for that CNF. "
               "Refuted (vm_compute witnesses): C12_refuted_add_existing, C12_refuted_duplicate_add (code before F8; C12_fixed_on_refuting_histories for HEAD), "
-              "C12_refuted_unsat_panic (K9), C12_refuted_empty_cnf (K14); C12_refines_k11_repaired: the main theorem without 'stored set not empty' for the loader of the "
-              "proposed repair repo_patches/F9-empty-cnf-clause-cache.patch. No axioms",
+              "C12_refuted_unsat_panic (K9); about the loader before F9 (load_cnf_v0, Ddnnf::new created the cache only for a non-empty stored set): "
+              "C12_refuted_empty_cnf_v0 (K14: save-cnf / clause-update answered E5; the repaired loader answers the same history as the abstract "
+              "machine: `p cnf 2 0`, add from the empty set, t, undo), C12_load_cnf_v0_nonempty (F9 changes nothing for a non-empty stored set). "
+              "Against a tree WITHOUT F9 the check reports VIOLATION save-cnf:no-clause-cache (detector, no finding line) on every start with an "
+              "empty stored set. No axioms",
     "assumptions": [
         "theorems are about the Gallina model Model/ClauseCache.v; tied to /repo by the correspondence: answer class and error text, feature count and the save-cnf text line by line after EVERY step of every explored history (model = implementation, also for the state a panic leaves behind); when /repo carries hook H7 (repo_patches/H7-clause-cache-view.patch, detected by harness/build.rs) also the private bookkeeping total_features / old_total_features / old_state's feature count / edit_add / edit_rmv (driver_stats.cache_bookkeeping_compared) - these fields have no effect on any public answer, so a change that only corrupts them is reported as 'no-failing-input-found' with H7 and is invisible without it",
         "compiler contract (trusted base): for every CNF the compiler + loader yield a vector accepted by check_wf whose truth table is the CNF's; the run checks it for every observed live circuit (check_wf, no_dead, Models = truth table of the oracle's CNF) and validates every stand-in compiler output against the CNF's truth table in the harness",
         "oracle independent of the cache model: the abstract machine written directly in OCaml (sets of sorted int lists) + brute-force truth table; count, count a l for every literal, sat, core, the boundary (count a n+1 is an E3 error) and the save-cnf text are compared after every step; cross-checked against the extracted Spec.CnfMachine",
-        "histories: exhaustive trees (every command sequence up to length 3 quick / 5 thorough over a per-CNF alphabet of 17-22 commands: adds of new / present / duplicated / permuted-literal / tautological clauses, removes of present / absent / repeated / present+absent clauses, add+rmv and rmv+re-add in one command, t growing / shrinking / below a used variable / t together with the removal of the blocking clauses, literals above n, undo, the empty update, an update that makes the formula unsatisfiable) on hand-picked CNFs (units, subsumed clauses, duplicates, tautologies, free features, empty stored set); every satisfiable Boolean function over <= 3 variables as start CNF with shorter trees (length 2-3 quick, 3-4 thorough); random histories of length 6-14 (6-30 thorough) on random CNFs with up to 8 (10) variables",
+        "histories: exhaustive trees (every command sequence up to length 3 quick / 5 thorough over a per-CNF alphabet of 17-22 commands: adds of new / present / duplicated / permuted-literal / tautological clauses, removes of present / absent / repeated / present+absent clauses, add+rmv and rmv+re-add in one command, t growing / shrinking / below a used variable / t together with the removal of the blocking clauses, literals above n, undo, the empty update, an update that makes the formula unsatisfiable) on hand-picked CNFs (units, subsumed clauses, duplicates, tautologies, free features, empty stored set = ordinary starts since F9); every satisfiable Boolean function over <= 3 variables (the constant-true function = the CNF without clauses included) as start CNF with shorter trees (length 2-3 quick, 3-4 thorough); random histories of length 6-14 (6-30 thorough) on random CNFs with up to 8 (10) variables (one start in sixteen without effective clauses)",
         "reading of 'below a variable still in use': a variable of the CURRENT stored set, as the implementation checks before applying rmv ('clause-update t 4 rmv 4 5' on {4 5} is rejected); rejections change nothing, so this conservative reading cannot hide a wrong state",
         "unsatisfiable START CNFs are not C12 cases (no model is loaded: the load panics, K9); i32/u32 overflow of literals and feature counts is not modelled (Z / nat); malformed command lines (empty clause, non-numeric tokens, several t values) belong to C13",
     ],
